@@ -59,6 +59,7 @@ struct _ctx {
     void *fs;                               // FS context handler. Null if unsupported
     ctx_stats_t stats;                      // Context' stats
     m_thpool_t  *thpool;                    // thpool for M_SRC_TYPE_TASK srcs; lazily created
+    m_list_t *tasks;                        // task srcs handed to the thpool: each is kept alive (a reference) until the pool is done with it
     ctx_tick_t tick;                        // Tick for ctx sending a M_PS_CTX_TICK message
     CONST const void *userdata;             // Context's user defined data
 };
